@@ -16,9 +16,9 @@ import (
 func init() {
 	core.Register(&core.Property{
 		ID: "C18",
-		Rule: "lock-step reference loop on scripted outcome sequences: k in 0..8 plain errors followed by every ending {success, fatal error nested 1-3 deep, cancellation before the first call, cancellation inside the call in flight (which then errs / succeeds / fails fatally), cancellation inside the wait} x rates {<=0, 1ns, 1us, 300ms} (complete), " +
+		Rule: "lock-step reference loop on scripted outcome sequences: k in 0..8 plain errors followed by every ending {success, fatal error nested 1-3 deep, cancellation before the first call, cancellation inside the call in flight (which then errs / succeeds / fails fatally), cancellation inside the wait} x rates {<=0, 1ns, 1us, 300ms} (complete), x context kinds {WithCancel, WithCancelCause with a custom cause, deadline ten minutes ahead that is never reached, child of a context cancelled with a cause} (the error to report is ctx.Err(), never the cause, and a far deadline changes nothing), " +
 			"each returned function invoked twice in a row (the attempt counter restarts), plus long scripts of 40 plain errors (cap at 31); delays observed through VerifRetryObserve (observers call through to the real calcExponentialRetry / waitDuration; most scenarios skip the real wait = virtual time); " +
-			"real-wait family: elapsed heartbeats for tiny delays and prompt return when cancelled during a long wait. oracle: number and order of calls, result and error identity (innermost error, not fatal), delay a whole number of slots in [0, 2^c-1] x rate (300ms when rate<=0), wait requested with exactly that delay, no call after cancellation was observed. " +
+			"real-wait family: elapsed heartbeats for tiny delays, prompt return when cancelled during a long wait, and a context with a real 5-35 ms deadline (the function may return only once ctx.Err() is non-nil, with DeadlineExceeded). oracle: number and order of calls, result and error identity (innermost error, not fatal), delay a whole number of slots in [0, 2^c-1] x rate (300ms when rate<=0), wait requested with exactly that delay, no call after cancellation was observed. " +
 			"non-trivial = at least one retry (k>=1) happened; distinct = distinct scripts",
 		Assumptions: []string{"VerifRetryObserve swaps package-level variables, so scenarios run one at a time in their child process", "the distribution of the random slot is not checked, only its range (max slot per k is reported)"},
 		Families: []core.Family{
@@ -49,10 +49,32 @@ type c18Script struct {
 	rate    time.Duration
 	twice   bool
 	invoked int
+	ctxKind int // 0 WithCancel, 1 WithCancelCause (custom cause), 2 WithDeadline ten minutes ahead (never reached), 3 child of a context cancelled with a cause
+}
+
+var c18CtxKinds = []string{"cancel", "cancel-cause", "far-deadline", "child-of-cause"}
+
+var errC18Cause = errors.New("c18 custom cancellation cause")
+
+// c18Context builds the context of a script: whatever its kind, it ends only through the returned cancel function, and
+// the error the retry function has to report is ctx.Err() (never the cause).
+func c18Context(kind int) (context.Context, context.CancelFunc) {
+	switch kind {
+	case 1:
+		ctx, cc := context.WithCancelCause(context.Background())
+		return ctx, func() { cc(errC18Cause) }
+	case 2:
+		return context.WithDeadline(context.Background(), time.Now().Add(10*time.Minute))
+	case 3:
+		parent, cc := context.WithCancelCause(context.Background())
+		ctx, cancel := context.WithCancel(parent)
+		return ctx, func() { cc(errC18Cause); cancel() }
+	}
+	return context.WithCancel(context.Background())
 }
 
 func (s c18Script) String() string {
-	return fmt.Sprintf("k=%d ending=%s rate=%s", s.k, s.ending, s.rate)
+	return fmt.Sprintf("k=%d ending=%s rate=%s ctx=%s", s.k, s.ending, s.rate, c18CtxKinds[s.ctxKind])
 }
 
 func nestFatal(err error, depth int) error {
@@ -67,7 +89,7 @@ func runC18Script(c *core.Ctx, s c18Script, maxSlot map[int]int64) {
 	if s.ending == "cancel-in-wait" && s.k == 0 {
 		return // no wait to cancel in
 	}
-	ctx, cancel := context.WithCancel(context.Background())
+	ctx, cancel := c18Context(s.ctxKind)
 	defer cancel()
 	if s.ending == "cancel-before" {
 		cancel()
@@ -209,7 +231,7 @@ func c18Scripted(c *core.Ctx) {
 		for _, e := range endings {
 			for _, twice := range []bool{false, true} {
 				for rep := 0; rep < 5; rep++ {
-					runC18Script(c, c18Script{k: k, ending: e, rate: rate, twice: twice}, maxSlot)
+					runC18Script(c, c18Script{k: k, ending: e, rate: rate, twice: twice, ctxKind: rep % len(c18CtxKinds)}, maxSlot)
 					n++
 				}
 			}
@@ -229,10 +251,11 @@ func c18RandomLong(c *core.Ctx) {
 	n := 0
 	for i := 0; i < 20; i++ {
 		s := c18Script{
-			k:      9 + c.Rng.IntN(40),
-			ending: core.Pick(c.Rng, "success", "fatal2", "cancel-in-call-err", "cancel-in-wait", "cancel-in-call-ok"),
-			rate:   core.Pick(c.Rng, time.Duration(0), time.Nanosecond, 7*time.Nanosecond, time.Microsecond, 300*time.Millisecond),
-			twice:  c.Rng.IntN(2) == 0,
+			k:       9 + c.Rng.IntN(40),
+			ending:  core.Pick(c.Rng, "success", "fatal2", "cancel-in-call-err", "cancel-in-wait", "cancel-in-call-ok"),
+			rate:    core.Pick(c.Rng, time.Duration(0), time.Nanosecond, 7*time.Nanosecond, time.Microsecond, 300*time.Millisecond),
+			twice:   c.Rng.IntN(2) == 0,
+			ctxKind: c.Rng.IntN(len(c18CtxKinds)),
 		}
 		runC18Script(c, s, maxSlot)
 		n++
@@ -247,7 +270,13 @@ func c18RandomLong(c *core.Ctx) {
 func c18RealWait(c *core.Ctx) {
 	ctx, cancel := context.WithCancel(context.Background())
 	defer cancel()
-	mode := core.Pick(c.Rng, "cancel-during-long-wait", "tiny-wait-elapses")
+	mode := core.Pick(c.Rng, "cancel-during-long-wait", "tiny-wait-elapses", "deadline-expires-during-wait")
+	if mode == "deadline-expires-during-wait" {
+		// a context that carries a (real, short) deadline: the loop has to go on until the context IS cancelled
+		cancel()
+		ctx, cancel = context.WithTimeout(context.Background(), time.Duration(5+c.Rng.IntN(30))*time.Millisecond)
+		defer cancel()
+	}
 	calls := 0
 	rate := 300 * time.Millisecond
 	if mode == "tiny-wait-elapses" {
@@ -269,8 +298,8 @@ func c18RealWait(c *core.Ctx) {
 		return false // real wait
 	})
 	var res interface{}
-	var err error
-	done := core.Go(func() { res, err = fn() })
+	var err, ctxErrAtReturn error
+	done := core.Go(func() { res, err = fn(); ctxErrAtReturn = ctx.Err() })
 	ok := core.AwaitDone(done, 20000)
 	restore()
 	if !ok {
@@ -283,13 +312,19 @@ func c18RealWait(c *core.Ctx) {
 		if res != "ok" || err != nil || calls != 4 {
 			c.Violate("result", "returned (%v, %v) after %d calls, want (ok, nil) after 4", res, err, calls)
 		}
+	} else if mode == "deadline-expires-during-wait" {
+		if ctxErrAtReturn == nil {
+			c.Violate("returned-before-cancellation", "returned (%v, %v) after %d failing calls while the context was not cancelled yet (its deadline had not passed)", res, err, calls)
+		} else if err != context.DeadlineExceeded || res != nil {
+			c.Violate("result", "returned (%v, %v), want (nil, context deadline exceeded)", res, err)
+		}
 	} else {
 		if err != context.Canceled || res != nil {
 			c.Violate("result", "returned (%v, %v), want (nil, context canceled)", res, err)
 		}
 	}
 	c.Op("script", 1)
-	if mode == "tiny-wait-elapses" || longWaits > 0 {
+	if mode == "tiny-wait-elapses" || mode == "deadline-expires-during-wait" && calls > 0 || longWaits > 0 {
 		c.Nontrivial()
 	}
 	c.Sig(mode, calls)
